@@ -31,11 +31,6 @@ import (
 func init() {
 	Disable()
 	log.SetOutput(io.Discard)
-	// work-around: bin/check overrides VERIF_KNOWN; a private list can be
-	// passed through VERIF_KNOWN_PRIVATE instead (see HARNESS_GUIDE "Known").
-	if p := os.Getenv("VERIF_KNOWN_PRIVATE"); p != "" {
-		os.Setenv("VERIF_KNOWN", p)
-	}
 }
 
 const (
@@ -912,6 +907,6 @@ func c19Gen(rt *rapid.T) c19Case {
 }
 
 func TestVerif_C19_rotate(t *testing.T) {
-	kit.Run(t, "C19", "rotate-history", kit.Opts{Quick: 1500, Thorough: 48000}, c19Gen,
+	kit.Run(t, "C19", "rotate-history", kit.Opts{Quick: 1500, Thorough: 40000}, c19Gen,
 		func(c c19Case) kit.Verdict { return c19Interp(t, c) })
 }
